@@ -8,7 +8,7 @@ global size_of usize == 8;
 impl From<IoErr> for SudachiError { #[verifier::external_body] fn from(e: IoErr) -> SudachiError { SudachiError::Other } }
 
 /// opaque collaborators: error context, line reader, regex tests (assumed total, no further contract)
-pub struct DicCompilationCtx { _p: () }
+#[verifier::external_body] pub struct DicCompilationCtx { _p: () }
 impl DicCompilationCtx {
     #[verifier::external_body] fn set_line(&mut self, line: usize) -> usize { unimplemented!() }
     #[verifier::external_body] fn add_line(&mut self, offset: usize) { unimplemented!() }
@@ -23,7 +23,7 @@ pub trait VBufRead {
 #[verifier::external_body] fn is_blank_line(s: &String) -> bool { unimplemented!() }   // R14: EMPTY_LINE.is_match
 #[verifier::external_body] fn num_error<T>(part: &'static str, value: i16) -> (r: SudachiResult<T>) ensures r is Err { unimplemented!() }
 /// R14: SPLIT_REGEX.splitn(line.trim(), n) + it_next(.., parse_i16): the next whitespace-separated field as i16, or an error
-pub struct Fields { _p: () }
+#[verifier::external_body] pub struct Fields { _p: () }
 #[verifier::external_body] fn split_ws(line: &String, n: usize) -> Fields { unimplemented!() }
 #[verifier::external_body] fn next_i16(line: &String, items: &mut Fields, field: &'static str) -> DicWriteResult<i16> { unimplemented!() }
 
